@@ -170,6 +170,19 @@ func runC07(t *testing.T, seed int64, n int, out *Out) {
 				return nil
 			})
 		}
+		// governance re-sends the vault's parameters as they were drafted some operations ago (a proposal is written, voted on and
+		// executed later: whatever the vault did in between must not be undone by the stale copy)
+		var draft *sstypes.Params
+		doGovParams := func() string {
+			if draft == nil {
+				return ""
+			}
+			d := *draft
+			return emit("govparams", 8, vault, math.ZeroInt(), nil, func(c sdk.Context) error {
+				_, err := ms.UpdateParams(c, &sstypes.MsgUpdateParams{Authority: w.Gov, Params: &d})
+				return err
+			})
+		}
 		advance := func() {
 			var dt int64
 			switch r.Intn(5) {
@@ -331,6 +344,14 @@ func runC07(t *testing.T, seed int64, n int, out *Out) {
 		for i := 0; i < nops; i++ {
 			u := 1 + r.Intn(2)
 			c := r.Intn(100)
+			if r.Intn(8) == 0 {
+				p := k.GetParams(ctx)
+				draft = &p
+			}
+			if draft != nil && r.Intn(12) == 0 {
+				doGovParams()
+				continue
+			}
 			switch {
 			case c < 22:
 				doBond(u, bondAmount(), nil)
